@@ -58,6 +58,15 @@ def nextPacket (s : Store) (it : Iter) : Iter × Except Code (List (Str × V)) :
       | none => (it, .error CIF_INTERNAL_ERROR)
       | some p => ({ it with rows := rest, prev := r.rowNum, finished := rest.isEmpty }, .ok p)
 
+/-- cif_pktitr_next_packet with a CALLER-SUPPLIED packet (`*packet != NULL`): "replacing the contents … includes removing items that
+    do not belong to the iterated loop".  `caller` = the entries of the caller's packet (normalised key, spelling) in its order,
+    `p` = the packet just read.  The caller's entries for items of the loop stay where they are, in the caller's spelling, with
+    the value read; its other entries are removed; the loop's remaining items are appended in the loop's order (spelling =
+    normalised name, as cif_packet_create_norm makes them). -/
+def mergeCallerPacket (caller : List (Str × Str)) (p : List (Str × V)) : List (Str × Str × V) :=
+  caller.filterMap (fun c => (p.find? (fun e => e.1 == c.1)).map (fun e => (c.1, c.2, e.2)))
+    ++ (p.filter (fun e => !caller.any (fun c => c.1 == e.1))).map (fun e => (e.1, e.1, e.2))
+
 /-- the HASH_ITER loop of cif_pktitr_update_packet -/
 def updateValues (d : Db) (it : Iter) : List (Str × V) → Except Code Db
   | [] => .ok d
